@@ -1,11 +1,7 @@
 (* C17 driver: replays the IN lines of the harnesses on the extracted model, prints OUT lines *)
 let side_of_char = function 'L' -> SL | _ -> SR
-let () =
-  try
-    while true do
-      let line = input_line stdin in
-      match String.split_on_char ' ' line with
-      | "IN" :: "IQ" :: id :: f :: l :: t :: rest ->
+let iq_line id f l t rest =
+
         let tn = int_of_string t in
         let progs = Array.make tn [] in
         let rest = Array.of_list rest in
@@ -29,6 +25,97 @@ let () =
         Printf.printf "OUT IQ %s sites=%s res=%s rest=%s\n" id
           (String.concat "," (List.map (fun s -> string_of_int (int_of_nat s)) sites))
           resstr (if restl = [] then "-" else String.concat "," restl)
+
+(* ------------------------------------------------------------------ lock-free deque *)
+let op_of_string (s : string) : dop =
+  match s.[0] with
+  | 'l' -> Push (SL, n_of_int (int_of_string (String.sub s 1 (String.length s - 1))))
+  | 'r' -> Push (SR, n_of_int (int_of_string (String.sub s 1 (String.length s - 1))))
+  | 'L' -> Pop SL
+  | _ -> Pop SR
+let prog_of_string s = List.map op_of_string (split_on ',' s)
+let string_of_op = function
+  | Push (SL, v) -> "l" ^ string_of_int (int_of_n v) | Push (SR, v) -> "r" ^ string_of_int (int_of_n v)
+  | Pop SL -> "L" | Pop SR -> "R"
+let res_string (ops : dop list) (rs : n option list) : string =
+  (* one token per completed operation of the thread, in program order *)
+  let rec go ops rs acc = match ops, rs with
+    | o :: ot, r :: rt ->
+      let s = (match o, r with
+          | Push _, _ -> "t"
+          | Pop _, Some v -> string_of_int (int_of_n v)
+          | Pop _, None -> "n") in go ot rt (s :: acc)
+    | _, _ -> List.rev acc in
+  String.concat "," (go ops rs [])
+let rec count_pushes = function [] -> 0 | Push _ :: r -> 1 + count_pushes r | _ :: r -> count_pushes r
+(* first-appearance canonicalisation of node addresses, exactly as the harness does with pointers *)
+let canon_obs (obs : ((nat * nat) * n) list) : string =
+  let tbl = Hashtbl.create 16 in
+  let next = ref 0 in
+  String.concat "," (List.map (fun ((k, f), a) ->
+      let ai = int_of_n a in
+      let kk = int_of_nat k in
+      let c = if ai = 0 then 0 else if kk = 4 || kk = 8 then ai else
+          (match Hashtbl.find_opt tbl ai with
+           | Some c -> c
+           | None -> incr next; Hashtbl.add tbl ai !next; !next) in
+      Printf.sprintf "%d.%d.%d" (int_of_nat k) (int_of_nat f) c) obs)
+let drain_results (rs : n option list) : string =
+  let rec go = function Some v :: r -> string_of_int (int_of_n v) :: go r | _ -> [] in
+  match go rs with [] -> "-" | l -> String.concat "," l
+
+let dq_case kind id k tn (progs : string array) (sched : int list) =
+  let init = prog_of_string progs.(0) in
+  let ps = Array.init tn (fun i -> prog_of_string progs.(i + 1)) in
+  let npush = Array.fold_left (fun a p -> a + count_pushes p) (count_pushes init) ps in
+  let ndrain = npush + 2 in
+  let drainp = List.init ndrain (fun _ -> Pop SL) in
+  let progf = fun t -> let i = int_of_nat t in
+    if i < tn then ps.(i) else if i = tn then init else if i = tn + 1 then drainp else [] in
+  let c0 = (dq_init (n_of_int k), dq_locals progf) in
+  let c1 = dq_solo (nat_of_int (40 * (List.length init + 1))) (nat_of_int tn) c0 in
+  let (obs, c2) = dq_trace (List.map nat_of_int sched) c1 [] in
+  let c3 = dq_solo (nat_of_int (40 * (ndrain + 1))) (nat_of_int (tn + 1)) c2 in
+  let g = fst c3 in
+  let per = Array.to_list (Array.init tn (fun i -> res_string ps.(i) (dq_results (nat_of_int i) g.dlog))) in
+  let alldone = List.for_all (fun i -> dq_done (snd c2 (nat_of_int i))) (List.init tn (fun i -> i)) in
+  let initres = res_string init (dq_results (nat_of_int tn) g.dlog) in
+  Printf.printf "OUT %s %s obs=%s init=%s res=%s rest=%s\n" kind id
+    (if obs = [] then "-" else canon_obs obs) (if initres = "" then "-" else initres) (String.concat "|" per)
+    (drain_results (dq_results (nat_of_int (tn + 1)) g.dlog));
+  Printf.printf "MOD %s %s aba=%d done=%d\n" kind id (if (fst c2).aba then 1 else 0) (if alldone then 1 else 0)
+
+let () =
+  try
+    while true do
+      let line = input_line stdin in
+      match String.split_on_char ' ' line with
+      | "IN" :: "IQ" :: id :: f :: l :: t :: rest -> iq_line id f l t rest
+      | "IN" :: "DQ" :: id :: k :: t :: rest ->
+        (* rest = initprog prog0 .. prog(T-1) sched *)
+        let tn = int_of_string t in
+        let a = Array.of_list rest in
+        let sched = List.map int_of_string (split_on ',' a.(tn + 1)) in
+        dq_case "DQ" id (int_of_string k) tn (Array.sub a 0 (tn + 1)) sched
+      | "IN" :: "DS" :: id :: k :: prog :: _ ->
+        (* sequential: one thread runs the whole program alone *)
+        let p = prog_of_string prog in
+        let progs = [| "-"; prog |] in
+        let c0 = (dq_init (n_of_int (int_of_string k)), dq_locals (fun t -> if int_of_nat t = 0 then p else [])) in
+        let c1 = dq_solo (nat_of_int (40 * (List.length p + 1))) O c0 in
+        let npush = count_pushes p in
+        let drainp = List.init (npush + 2) (fun _ -> Pop SL) in
+        let c1' = (fst c1, (fun t -> if int_of_nat t = 1 then { dtodo = drainp; dpc = DIdle } else snd c1 t)) in
+        let c2 = dq_solo (nat_of_int (40 * (npush + 3))) (S O) c1' in
+        ignore progs;
+        Printf.printf "OUT DS %s res=%s rest=%s\n" id (res_string p (dq_results O (fst c2).dlog))
+          (drain_results (dq_results (S O) (fst c2).dlog))
+      | "IN" :: "WITNESS" :: _ ->
+        Printf.printf "OUT WITNESS k=%d init=%s p0=%s p1=%s sched=%s\n" (int_of_n aba_k)
+          (String.concat "," (List.map string_of_op (aba_progs (nat_of_int 2))))
+          (String.concat "," (List.map string_of_op (aba_progs O)))
+          (String.concat "," (List.map string_of_op (aba_progs (S O))))
+          (String.concat "," (List.map (fun t -> string_of_int (int_of_nat t)) aba_sched))
       | _ -> ()
     done
   with End_of_file -> ()
